@@ -4,7 +4,7 @@
 set -u
 mkdir -p /var/tmp/mutregress
 cd /verif
-ls -d seeded/*/ | sed 's#/$##' | xargs -P 8 -I{} bash -c '
+ls -d seeded/*/ | sed 's#/$##' | grep -E "${MUTFILTER:-.}" | xargs -P 8 -I{} bash -c '
   d={}; name=$(basename $d); wt=/var/tmp/mutregress/$name
   git -C /repo worktree remove --force $wt >/dev/null 2>&1; rm -rf $wt
   git -C /repo worktree add -q --detach $wt HEAD >/dev/null 2>&1 || { echo "$name: worktree failed"; exit 0; }
